@@ -568,13 +568,42 @@ def text_call_spelling(name, argf, kwf, lab_of):
                                        ', '.join('%s => %s' % (k, t(f)) for k, f in kwf.items())), binds
 
 
-def eval_text(text, binds, ctx):
+# A parsed statement is reusable (C09) and the arguments of the text spellings are the variables $v0.. - so ONE statement per
+# text serves every tuple, every overload of the name and every context of the process: the same call node meets receivers and
+# arguments of changing types.  What a node remembers of an earlier evaluation (an overload, a mapping, a laziness
+# decision) then shows up as a spelling that answers differently from the others.  `_REUSE_HIST` keeps, per text, the
+# (definition, tuple) pairs it was evaluated for, so that a replay can rebuild the history.
+_STATEMENTS = {}
+_REUSE_HIST = {}
+
+
+def eval_text(text, binds, ctx, who=None):
     def thunk():
         c2 = ctx.create_child_context()
         for v, mk in binds.items():
             c2[v] = mk()
-        return ENGINE(text).evaluate(context=c2)
-    return outcome(thunk)
+        st = _STATEMENTS.get(text)
+        if st is None:
+            st = _STATEMENTS[text] = ENGINE(text)
+        return st.evaluate(context=c2)
+    try:
+        return outcome(thunk)
+    finally:
+        if who is not None:
+            h = _REUSE_HIST.setdefault(text, [])
+            if who not in h:
+                h.append(who)
+                del h[:-8]
+
+
+def reuse_prev(texts, who):
+    """the earlier (definition, tuple) pairs the statements of `texts` were evaluated for, oldest first"""
+    out = []
+    for t in texts:
+        for w in _REUSE_HIST.get(t, []):
+            if w != who and w not in out:
+                out.append(w)
+    return [list(w) for w in out]
 
 
 def sweep_context(conv, root, rng, per_fd, sink, replay=None, model_reqs=None, where=None, call_budget=3, focus=(),
@@ -591,7 +620,7 @@ def sweep_context(conv, root, rng, per_fd, sink, replay=None, model_reqs=None, w
         names_count[n2] = names_count.get(n2, 0) + 1
     rbase = rng.random() if rbase is None else rbase
     for di, (li, name, fd) in enumerate(defs):
-        if replay and replay.get('def') != di:
+        if replay and replay.get('def') != di and not any(w[0] == di for w in replay.get('reuse_prev', [])):
             continue
         rng = common.make_rng(rbase, 'def/%d' % di)       # per definition, so that a replay draws the same tuples
         if fd.payload.__name__ in ('now', 'random', 'random__', 'random_', 'random_int') or name in NONDETERMINISTIC:
@@ -620,7 +649,8 @@ def sweep_context(conv, root, rng, per_fd, sink, replay=None, model_reqs=None, w
             for _ in range(6):
                 tuples.add(tuple(rng.randrange(len(cands[p.name])) for p in vis + kwonly))
         for ti, ch in enumerate(sorted(tuples, key=repr)):
-            if replay and list(ch) != replay['choice']:
+            if replay and not (replay.get('def') == di and list(ch) == replay['choice']) and \
+                    [di, list(ch)] not in replay.get('reuse_prev', []):
                 continue
             crng = common.make_rng(rbase, 'case/%d/%r' % (di, ch))
             pending = []
@@ -661,7 +691,7 @@ def sweep_context(conv, root, rng, per_fd, sink, replay=None, model_reqs=None, w
                     txt, binds = text_spelling(name, recv_i, argf, kwf, recv_mk, lab_of)
                     if txt is None:
                         continue
-                    text_outs.append((tag, txt, eval_text(txt, binds, ctx), argf, kwf))
+                    text_outs.append((tag, txt, eval_text(txt, binds, ctx, (di, list(ch))), argf, kwf))
                     bump('text-spelling:' + tag.split('@')[0])
             base = outs[0][1]
             # call(name, args, kwargs): only plain values can go through a list / dict.  It resolves by name, so each
@@ -770,7 +800,7 @@ def sweep_context(conv, root, rng, per_fd, sink, replay=None, model_reqs=None, w
                     if cand:
                         t = crng.choice(cand)
                         txt, binds = text_call_spelling(name, t[3], t[4], None)
-                        o = eval_text(txt, binds, ctx)
+                        o = eval_text(txt, binds, ctx, (di, list(ch)))
                         bump('text-spelling:call()')
                         if o != tbase[2]:
                             tdiff.append((t[0] + '/call()', txt, o, t[3], t[4]))
@@ -780,7 +810,7 @@ def sweep_context(conv, root, rng, per_fd, sink, replay=None, model_reqs=None, w
                               '[%s context%s] %s %r written as text: `%s` -> %s but `%s` -> %s' % (
                                   conv, ' #%d of %s' % (where['ctx_index'], '>'.join(where['order'])) if where else '',
                                   name, labels, tbase[1], tbase[2][:100], d[1], d[2][:100]),
-                              dict(case, text=d[1], text_base=tbase[1]))
+                              dict(case, text=d[1], text_base=tbase[1], reuse_prev=reuse_prev([tbase[1], d[1]], (di, list(ch)))))
             if pending and TIMEOUTS['seen'] > seen_before and TIMEOUTS['limit'] < 5.0:
                 # a spelling of this tuple ran into the wall-clock limit: on a loaded machine a stalled process looks like a
                 # call that does not terminate.  The whole tuple once more with a generous limit; what it reports counts
